@@ -166,6 +166,12 @@ func execRun(t *testing.T, sc *Scenario, tape *simrt.Tape, seed, run uint64, tie
 			func() {
 				defer func() {
 					if r := recover(); r != nil {
+						if rd, isRD := r.(simrt.RootDeadlock); isRD {
+							// the sequential part of the scenario (one thread, nothing else running)
+							// blocked on a lock of the library: the object is locked for good
+							rc.Failf(sc.Prop+".stuck", "sequential:lock@"+rd.Site, "a call made while no other goroutine was running blocks for ever: the %s; an earlier call left the lock held (or this call takes it twice), so every later call on the object, Send included, never returns", rd.Error())
+							return
+						}
 						res.Infra = fmt.Sprintf("panic in scenario: %v", r)
 					}
 				}()
@@ -284,7 +290,9 @@ func loadKnown(path string) []knownFinding {
 	}
 	for _, f := range doc.Findings {
 		out = append(out, f)
-		if f.Status == "known" {
+		if f.Status == "known" && f.Signature != os.Getenv("VERIF_UNSUPPRESS") {
+			// (VERIF_UNSUPPRESS names one listed finding that is to be reported like a new
+			// one: tools/refresh_witnesses.py uses it to record a fresh witness)
 			knownSigs[f.Signature] = true
 		}
 	}
